@@ -423,6 +423,9 @@ def run_selftest(prop, scens, repo, jobs, mod, seed):
             meta = json.load(open(os.path.join(d, 'meta.json')))
         except Exception:
             continue
+        if meta.get('obsolete'):
+            out['skipped'].append({'id': mid, 'why': 'obsolete: ' + str(meta['obsolete'])[:120]})
+            continue
         ev = meta.get('evaluation', {})
         relevant = prop in (ev.get('checks') or {}) and (ev['checks'][prop].get('exit') == 1)
         if meta.get('property') != prop and not relevant:
@@ -447,14 +450,17 @@ def run_selftest(prop, scens, repo, jobs, mod, seed):
             failed = [('%s[%s].%s' % (r['scenario'], pstr(r['params']), o['name'])) for r in res for o in r['obligations'] if o['status'] == 'failed']
             bfail = 0
             if hasattr(mod, 'bounded_checks'):
+                known_ = load_known(prop)
                 for b in mod.bounded_checks('quick', seed, tmp):
-                    bfail += len(b.get('failures', []))
+                    # failures listed as open known findings of the unchanged tree do not count as a detection
+                    bfail += len([f for f in b.get('failures', []) if match_known(known_, 'bounded:' + f.get('name', '')) is None])
             if failed or bfail:
                 out['detected'].append({'id': mid, 'failed_obligations': len(failed), 'bounded_failures': bfail, 'first': (failed[:1] or ['bounded'])[0]})
                 print('MUTANT-DETECTED %s (%d obligations fail, %d bounded failures; e.g. %s)' % (mid, len(failed), bfail, (failed[:1] or ['bounded stand-in'])[0]))
             else:
-                out['missed'].append({'id': mid})
-                print('MUTANT-MISSED %s' % mid)
+                others = sorted(k for k, v in (ev.get('checks') or {}).items() if v.get('exit') == 1 and k != prop)
+                out['missed'].append({'id': mid, 'caught_by_other_checks': others})
+                print('MUTANT-MISSED %s by the %s check%s' % (mid, prop, (' (caught by %s, see seeded/%s/meta.json)' % (', '.join(others), mid)) if others else ''))
         finally:
             shutil.rmtree(tmp, ignore_errors=True)
     out['summary'] = '%d/%d detected' % (len(out['detected']), len(out['detected']) + len(out['missed']))
